@@ -7,7 +7,8 @@ order (stable sort keyed on the k-mer, grouping keyed on the k-mer), with its ow
 canonicalisation table (flip ⇒ extensions reverse-complemented; bucket computed from the stored key); emission table
 (all_kmers ⇔ report flag; key/extensions/summary in lockstep ⇔ accepted); bucket() is the first four bases for every
 k-mer type (monotone in the k-mer order, < 256); the two summarizers (accept ⇔ count >= untruncated threshold, union of
-extensions, data); the flanking-extension iterator table."""
+extensions, data); the flanking-extension iterator table.
+Added later: exact threshold witnesses for the set summarizer, k-mer reads on byte containers, override table of the k-mer iterators."""
 from .. import lemmas, dt_filter, dt_seq
 from . import common
 
